@@ -221,8 +221,12 @@ func TestProp_XMLAttr(t *testing.T) {
 		}
 		snap := append([]byte(nil), b...)
 		// CDATA
-		if rapid.IntRange(0, 3).Draw(t, "many") == 0 {
+		if k := rapid.IntRange(0, 3).Draw(t, "many"); k == 0 {
 			b = append(b, gen.Fragments(t, "lt", []string{"<", "&", "<<", "&&", "a"}, 8)...)
+			b = bytes.ReplaceAll(b, []byte{0}, []byte("0"))
+		} else if k == 1 {
+			// text that contains the CDATA terminator and its look-alikes
+			b = append(b, gen.Fragments(t, "cdend", []string{"]]>", "]]", "]", "]>", ">", "]]]>", "a", "<", "&", "]]&gt;", " "}, 6)...)
 			b = bytes.ReplaceAll(b, []byte{0}, []byte("0"))
 		}
 		snap = append([]byte(nil), b...)
